@@ -109,15 +109,15 @@ EXPL_NOTE = ('Trusted: NumPy/LAPACK/SciPy/cvxpy float64 arithmetic with the stat
              'Eigenvalues, SDP/LP optimal values, Cholesky pivots and optimiser output are not reachable by contract-based deduction (no verifier for the numeric kernels): the deciding part is the run-time form of the contracts on enumerated/seeded inputs, labelled bounded and never counted as proved.')
 CHECKS.update({
  'C05': dict(level='exploration', ref='DESIGN.md §7 C05',
-   text='Bounded: every necessary criterion (PPT, generalized PPT, CCNR, reduction, swap witness, symmetric / bosonic extension SDPs k=2 (3 thorough)) passes on enumerated structured and seeded random separable states in dims (2,2)..(2,3,2), including boundary, rank-deficient and nearly parallel product terms, integer / float32 / complex64 inputs and dimension lists given as tuples, lists or non-contiguous NumPy views; two-qubit concurrence / EOF / GME / negativity finite and zero on them. '
+   text='Bounded: every necessary criterion (PPT, generalized PPT, CCNR, reduction, swap witness, symmetric / bosonic extension SDPs k=2 (3 thorough)) passes on enumerated structured and seeded random separable states in dims (2,2)..(2,3,2), including boundary, rank-deficient and nearly parallel product terms, integer / float32 / complex64 inputs and dimension lists given as tuples, lists or non-contiguous NumPy views; call histories (several orderings of the same local dimensions in one process, interleaved and repeated: the verdict does not depend on earlier calls); two-qubit concurrence / EOF / GME / negativity finite and zero on them. '
         'Proved core (not claimed as the level): the matrices the criteria test are the partial transposes / realignments / reduction operators of a symbolic rho; the bipartition enumeration of the generalized PPT test is complete and duplicate-free; the verdicts of is_ppt / check_reduction_witness / is_generalized_ppt are exactly the conjunction of the PSD-oracle answers, resp. "every nuclear norm <= 1+1e-10" (every oracle answer pattern enumerated).',
    note=EXPL_NOTE, tech=TECH + 'here only for the index-algebra core; deciding part: run-time contract evaluation on separable states (bounded stand-in)'),
  'C06': dict(level='exploration', ref='DESIGN.md §7 C06',
-   text='Bounded: both-sides threshold probes (beta*(1-1e-6) inside, beta*(1+1e-6) outside) of get_density_matrix_boundary / get_ppt_boundary along random rays and states, batched == per-item, nesting beta_CHA <= beta_(k+1)-ext <= beta_k-ext <= beta_PPT <= beta_DM up to 1e-4, inner-model states at arbitrary parameters accepted by the outer tests. '
+   text='Bounded: both-sides threshold probes (beta*(1-1e-6) inside, beta*(1+1e-6) outside) of get_density_matrix_boundary / get_ppt_boundary along random rays and states, batched == per-item, nesting beta_CHA <= beta_(k+1)-ext <= beta_k-ext <= beta_PPT <= beta_DM up to 1e-4, inner-model states at arbitrary parameters accepted by the outer tests; call histories over orderings of the same dimensions. '
         'Proved core: hf_interpolate_dm places the state at exactly the requested Gell-Mann distance (identity in symbolic rho, beta); get_ppt_boundary hands exactly the partial transpose to get_density_matrix_boundary; get_density_matrix_boundary, with numpy.linalg.eigvalsh replaced by its assumed contract (ascending symbolic eigenvalues of the matrix it is given), calls it once on the state itself and returns exactly the lengths at which the extreme eigenvalue of the ray I/N + beta (rho - I/N)/norm vanishes, all others being non-negative there (QF_NRA), N=2..4 (6).',
    note=EXPL_NOTE + ' cvxpy SolverError in this sandbox (the CHA LP; its own test is in the always-failing baseline set) is counted as skipped, never as a violation.', tech=TECH + 'here only for the interpolation / delegation core; deciding part: run-time contract evaluation along seeded rays (bounded stand-in)'),
  'C13': dict(level='exploration', ref='DESIGN.md §7 C13',
-   text='Bounded: on seeded two-qubit states of every rank (Haar, Bures, Werner, isotropic, near-separable, boundary) concurrence / EOF / GME / negativity are finite, in range, related by the closed forms, local-unitary invariant, independent of the input dtype (real arrays), leave their argument unchanged and agree with the pure-state formulas (8000 rotated Bell states up to C=1); every variational convex-roof model at random parameters (scales 0.1, 1, 10; ensemble sizes rank..8) is >= the closed form - 1e-7. '
+   text='Bounded: on seeded two-qubit states of every rank (Haar, Bures, Werner, isotropic, near-separable, boundary) concurrence / EOF / GME / negativity are finite, in range, related by the closed forms, local-unitary invariant, independent of the input dtype (real arrays), leave their argument unchanged and agree with the pure-state formulas (8000 rotated Bell states up to C=1); every variational convex-roof model at random parameters (scales 0.1, 1, 10; ensemble sizes rank..8) is >= the closed form - 1e-7, also when one model instance is given several states in turn (bound refers to the current state). '
         'Proved core: the spin-flip matrix whose spectrum get_concurrence_2qubit takes, the Wootters formula max(0, l_max - sum of the others) applied to the eigenvalues the eigen-routine reports, get_concurrence_pure(psi)^2 == 2(1 - Tr rho_A^2) for symbolic psi; and, with the concurrence / eigenvalue routines replaced by recorders reporting fixed exact values: get_eof_2qubit and get_gme_2qubit call the concurrence routine once with rho itself and return h((1+sqrt(max(0,1-C^2)))/2) resp. (1-sqrt(max(0,1-C^2)))/2 of the reported C (C in {0, 3/5, 5/13, 1, 1+2^-50}), get_negativity takes the eigenvalues of the partial transpose (2x2, 2x3) and returns (sum of moduli - 1)/2, get_eof_pure takes the spectrum of a Gram matrix of psi and returns -sum x log x, 0 for product shapes.',
    note=EXPL_NOTE, tech=TECH + 'here only for the spin-flip / pure-state core; deciding part: run-time contract evaluation on seeded states and model parameters (bounded stand-in)'),
  'C14': dict(level='exploration', ref='DESIGN.md §7 C14',
